@@ -83,11 +83,12 @@ var ethMutations = []string{"none", "time_not_after_parent", "time_future", "gas
 
 func (ETHScenario) Generate(rng *rand.Rand, focus, tier string) kernel.Plan {
 	cfg := map[string]int64{
-		"keyseed": rng.Int63(),
-		"start":   []int64{1, 40, 46, 300, 12000000}[rng.Intn(5)],
-		"tp_min":  []int64{10, 600, 20160}[rng.Intn(3)],
-		"delay":   rng.Int63n(4),
-		"same_roots": kernel.B2I(kernel.Chance(rng, 0.2)),
+		"keyseed":     rng.Int63(),
+		"special_seq": kernel.B2I(focus == "C19" || kernel.Chance(rng, 0.3)),
+		"start":       []int64{1, 40, 46, 300, 12000000}[rng.Intn(5)],
+		"tp_min":      []int64{10, 600, 20160}[rng.Intn(3)],
+		"delay":       rng.Int63n(4),
+		"same_roots":  kernel.B2I(kernel.Chance(rng, 0.2)),
 	}
 	var ops []kernel.Op
 	add := func(k string, a ...int64) { ops = append(ops, kernel.Op{K: k, A: a}) }
@@ -465,7 +466,8 @@ func (w *ethWorld) submit(n *ethNode, mut string, probe bool) {
 func (w *ethWorld) opWrite(op kernel.Op) {
 	r := rand.New(rand.NewSource(op.Arg(1)))
 	for i := int64(0); i < op.Arg(0); i++ {
-		seq := uint64(len(w.packets) + 1)
+		seq := stubSeq(len(w.packets), w.cfg["special_seq"], r.Int63n(1<<20))
+		checkPacketPaths(w.rec, w.name, "host", seq)
 		pkt := packettypes.Packet{SrcChain: w.name, DstChain: "host", Sequence: seq, Sender: "0xabc", CallData: []byte{byte(r.Intn(255)), 1}}
 		bz, err := pkt.ABIPack()
 		if err != nil {
@@ -756,6 +758,7 @@ func (w *ethWorld) afterRecv(tx *ethTx, ok bool, log string, pre, post map[strin
 			w.rec.Violate("C01", "double_accept", "eth", "packet %d accepted twice", tx.pkt.seq)
 		}
 		tx.pkt.recvOK = true
+		packetReadback(w.rec, w.host, w.name, tx.pkt.seq)
 		if !want {
 			key := "proof"
 			if !heightOK {
